@@ -19,7 +19,7 @@ place() { # $1 = demo file
 }
 runpat=$(grep -hoE 'func (Test[A-Za-z0-9_]+)' $(for d in $demos; do echo "$SRC/$d"; done) | awk '{print $2}' | paste -sd'|')
 pkgdir=$(place $(echo $demos | awk '{print $1}'))
-for d in $demos; do cp "$SRC/$d" "$WT/$pkgdir/"; done
+mkdir -p "$WT/$pkgdir"; for d in $demos; do cp "$SRC/$d" "$WT/$pkgdir/"; done
 ( cd "$WT" && go test -vet=off -count=1 -run "$runpat" "./$pkgdir/" ) > "$WT/.clean.log" 2>&1; clean_rc=$?
 git -C "$WT" apply "$SRC/patch.diff" 2>/dev/null || git -C "$WT" apply -3 "$SRC/patch.diff" || { echo "$SID: patch does not apply"; exit 5; }
 ( cd "$WT" && go test -vet=off -count=1 -run "$runpat" "./$pkgdir/" ) > "$WT/.mut.log" 2>&1; mut_rc=$?
